@@ -196,12 +196,21 @@ def hcl_case(rng):
         terms = []
         for s in srcs:
             deps.add((s, t)) if s != "Y_a" else None
-            terms.append("(%s)[0..%d]" % (s, min(tw, width[s])) if min(tw, width[s]) != width[s] or tw != width[s] else s)
+            m_ = min(tw, width[s])
+            term = "(%s)[0..%d]" % (s, m_) if m_ != width[s] or tw != width[s] else s
+            r_ = rng.random()
+            if r_ < 0.12:
+                # mentioned only in a position that is never evaluated: it is a dependency all the same
+                term = "[ %s : %s; 1 : 0b%s; ]" % (rng.choice(["0", "FALSE", "KF", "(1 == 2)", "0b0"]), term, "0" * m_)
+            elif r_ < 0.2:
+                term = "[ KF : 0b%s; (1 == 2) : %s; 1 : 0b%s; ]" % ("0" * m_, term, "0" * m_)
+            terms.append(term)
         # every term has width <= tw; pad with a tw-wide zero so '+' (max rule) yields tw
         zero = "0b" + "0" * tw
         expr = " + ".join([zero] + terms)
         assigned[t] = expr
         stmts.append("%s = %s;" % (t, expr))
+    stmts.append("const KF = 0, KT = 1;")
     if "Stat" not in assigned:
         stmts.append("Stat = STAT_AOK;")
     if "pc" not in assigned:
